@@ -310,11 +310,10 @@ func c02EmitC02GateShape(t *tr) {
 	wraps := false
 	if lf := t.funcs["Config.loadCertFromStorage"]; lf != nil && lf.Body != nil {
 		ast.Inspect(lf.Body, func(n ast.Node) bool {
-			if c, ok := n.(*ast.CallExpr); ok && exprStr(c.Fun) == "fmt.Errorf" {
-				for _, a := range c.Args[1:] {
-					if exprStr(a) == "errMaintainingLoadedCert" {
-						wraps = true
-					}
+			if c, ok := n.(*ast.CallExpr); ok && exprStr(c.Fun) == "fmt.Errorf" && len(c.Args) >= 2 {
+				// the sentinel must be the first operand and be wrapped with %w
+				if f, ok := t.strLit(c.Args[0], "loadCertFromStorage"); ok && strings.HasPrefix(f, "%w") && exprStr(c.Args[1]) == "errMaintainingLoadedCert" {
+					wraps = true
 				}
 			}
 			return true
